@@ -134,7 +134,7 @@ def handwritten_cases(rng, queries):
             for q in queries]
 
 
-async def fault_variants(s, cases, rng, per_case):
+async def fault_variants(s, cases, rng, per_case, root_kinds=()):
     """fault-free baseline gives the call sites; each variant fails one or two of them"""
     eng = await sched.build_gated_engine(s, fresh_schema_name("c08base"), None, None, CONFIGS[0])
     out = []
@@ -144,10 +144,13 @@ async def fault_variants(s, cases, rng, per_case):
         sites = [tuple(x["path"]) for x in base["calls"]]
         if not sites:
             continue
+        for k in root_kinds:          # every root field failed in turn with these kinds
+            for p in [p for p in sites if len(p) == 1][:3]:
+                out.append(dict(c, adversarial=0.0, fail=0.0, faults=[(list(p), k)]))
         for _ in range(per_case):
             ps = rng.sample(sites, 1 if rng.random() < 0.6 or len(sites) < 2 else 2)
             out.append(dict(c, adversarial=0.0, fail=0.0,
-                            faults=[(list(p), rng.choice(["raise", "null", "raise_gql_ext"])) for p in ps]))
+                            faults=[(list(p), rng.choice(["raise", "null", "raise_gql_ext", "raise_coercible"])) for p in ps]))
     return out
 
 
